@@ -110,6 +110,8 @@ def gen_case(rng):
 
 
 def line_of(c):
+    if "alias" in c:
+        return "alias " + c["alias"]
     r = c["route"]
 
     def o(v):
@@ -222,6 +224,9 @@ def render(r):
 
 
 def oracle(c, out):
+    if "alias" in c:
+        # a community added to one copy of a stored route (spare slice capacity) must not show up in another copy
+        return None if out == "ok" else (out.split()[0] + "-" + c["alias"] + "-communities", out[:400])
     if out.startswith("stored-route-mutated"):
         return ("stored-route-mutated", out[:300])
     if out.startswith("not-repeatable"):
@@ -253,12 +258,16 @@ def run(ctx):
     ctx.say("proof stage: ok=%s theorems=%d audit=%d (%.1fs)" % (proof["ok"], len(proof["theorems"]), len(proof["audit"]), proof.get("wall_s", 0)))
     n = ctx.scale(12000, 400000)
     cases = [gen_case(ctx.rng) for _ in range(n)]
+    aliases = [{"alias": k, "policies": [], "default": True} for k in ("std", "ext", "large")]
+    cases += aliases
     cov = core.differential(ctx, "c10", proof, cases, line_of, oracle, shrink_candidates=shrink_candidates,
-                            nontrivial=lambda c: sum(len(cs) for p in c["policies"] for cs, _, _ in p) >= 1,
+                            model_applies=lambda c: "alias" not in c,
+                            nontrivial=lambda c: "alias" in c or sum(len(cs) for p in c["policies"] for cs, _, _ in p) >= 1,
                             more_cases=lambda: [gen_case(ctx.rng) for _ in range(n)],
                             correspondence_name="RoutingPolicy.ApplyPolicy/Policy.Apply/Statement.Apply/conditions/actions vs Policy.Interp.apply_policy")
     pc = core.proof_coverage(proof)
     pc.update(cov)
+    cases = [c for c in cases if "alias" not in c]
     acc = sum(1 for c in cases if interpret(c) is not None)
     pc.update({
         "input_distribution": {"cases": len(cases), "accepted_by_reference": acc, "rejected_by_reference": len(cases) - acc,
